@@ -227,10 +227,76 @@ def run(ctx, prop_id: str) -> int:
                                f"'{u}' is never read in {fi.name}, and its call of {g.qualname} (line {call_.lineno}) leaves the "
                                f"helper's own '{u}' at its default: the caller's value is ignored", fi, call_.lineno,
                                alias_exact=True)
+    _fwd2(ctx, files, by_name)
     _more_pitfalls(ctx, prop_id, files, by_name)
     ctx.ob("CLO-1", f"{prop_id}: functions of the anchored files scanned for late-binding closures and iterator-valued fields",
            True, f"{n} functions", nontrivial=False)
     return n
+
+
+def _fwd2(ctx, files, by_name):
+    """FWD-2 (contradiction between call sites).  A package function has a defaulted parameter `u` that mirrors a field of
+    the calling objects (`dt`, `n_walkers` ...).  If some method passes its own `self.u` for it and another method of a
+    class that has the same field leaves the parameter to the helper's default, the second object is silently run with
+    the default instead of its own setting -- right only while the field happens to hold the default value."""
+    p = ctx.p
+
+    def fields_of(cq: str) -> Set[str]:
+        out: Set[str] = set()
+        for q in (p.classes[cq].mro if cq in p.classes else []):
+            ci = p.classes.get(q)
+            if ci is not None:
+                out |= {f.name for f in ci.own_fields}
+        return out
+
+    sites: Dict[tuple, list] = {}          # (callee qualname, param) -> [(caller fi, call node, 'self' / 'omitted' / 'other')]
+    for fi in list(p.functions.values()) + [m for c in p.classes.values() for m in c.methods.values()]:
+        if isinstance(fi.node, ast.Lambda) or fi.node is None:
+            continue
+        for call_ in ast.walk(fi.node):
+            if not isinstance(call_, ast.Call):
+                continue
+            nm = call_.func.id if isinstance(call_.func, ast.Name) else (
+                call_.func.attr if isinstance(call_.func, ast.Attribute) else None)
+            cands = by_name.get(nm or "", [])
+            if len(cands) != 1 or cands[0] is fi or any(isinstance(a_, ast.Starred) for a_ in call_.args) or \
+                    any(k_.arg is None for k_ in call_.keywords):
+                continue
+            g = cands[0]
+            gp = [q for q in g.params if q.name not in ("self", "cls")]
+            for k_, q in enumerate(gp):
+                if not q.has_default or q.kind not in ("pos", "kwonly"):
+                    continue
+                actual = None
+                if q.kind == "pos" and k_ < len(call_.args):
+                    actual = call_.args[k_]
+                for kw_ in call_.keywords:
+                    if kw_.arg == q.name:
+                        actual = kw_.value
+                if actual is None:
+                    how = "omitted"
+                elif isinstance(actual, ast.Attribute) and isinstance(actual.value, ast.Name) and actual.value.id == "self" \
+                        and actual.attr == q.name:
+                    how = "self"
+                else:
+                    how = "other"
+                sites.setdefault((g.qualname, q.name), []).append((fi, call_, how))
+    for (gq, u), lst in sorted(sites.items()):
+        if not any(h == "self" for _, _, h in lst):
+            continue
+        for fi, call_, how in lst:
+            if how != "omitted" or not fi.cls:
+                continue
+            mod = p.modules.get(fi.module)
+            if mod is None or not any(f.endswith(os.path.basename(mod.path)) for f in files):
+                continue
+            cq = fi.cls if fi.cls in p.classes else f"{fi.module}.{fi.cls}"
+            if u in fields_of(cq):
+                passing = [f_.qualname for f_, _, h in lst if h == "self"][:2]
+                ctx.ob("FWD-2", f"{fi.qualname}: its own '{u}' reaches {gq.split('.')[-1]}", False,
+                       f"the call of {gq} at line {call_.lineno} leaves '{u}' at the helper's default although the object has a "
+                       f"field '{u}' and {', '.join(passing)} pass self.{u}: this object is run with the default instead of "
+                       f"its setting", fi, call_.lineno, alias_exact=True)
 
 
 # parameters that are not read in the pinned tree, confirmed by reading: kept for call compatibility with a sibling entry
